@@ -66,7 +66,8 @@ def run(tier, seed, drv):
             vectors = [v for v in vectors if rng.random() < 90 / len(vectors)] + [tuple([3] + [0] * (len(procs) - 1)), tuple([0] + [3] * (len(procs) - 1))]
         for vec in vectors:
             delays = dict(zip(procs, vec))
-            for b in ("sync", "internal", "held"):   # "internal" = tickit's own InternalStateServer, observed
+            vi = vectors.index(vec)
+            for b in ("sync", "internal", "held") + (("kafka",) if vi % 4 == 0 else ()):   # "internal" / "kafka" = tickit's own state interfaces (Kafka over an in-process broker)
                 s2 = dict(copy.deepcopy(scn), start_delays=delays)
                 sd = rng.randrange(1 << 30)
                 run_ = run_scenario(s2, bus=b, seed=sd)
